@@ -283,6 +283,10 @@ def run(ctx):
     # a sample of items alone in fresh processes
     rng = random.Random(ctx.seed)
     sample = rng.sample(range(n), 6 if not ctx.thorough else 40)
+    # items whose outcome could hinge on value-equal-but-differently-typed inputs get a history-free run as well
+    typed = [i for i in range(n) if items[i][0] in ("typed_attrs", "attrs", "shared")]
+    sample += rng.sample(typed, min(len(typed), 10 if not ctx.thorough else 60))
+    sample = sorted(set(sample))
     with ThreadPoolExecutor(max_workers=14) as ex:
         solo = list(ex.map(lambda i: (i, spawn(rng.choice([0, 7, 11]), ctx.seed, n, "only", str(i))["only"][str(i)]), sample))
     for i, v in solo:
